@@ -1,13 +1,13 @@
 """C08 -- one conversion round reaches a fixpoint (the normal form is stable)."""
 import re
 
-from .. import coqbuild, sqltie, edtie, irtools as T
+from .. import coqbuild, gtie, sqltie, edtie, irtools as T
 from ..common import CORPUS_SEED, GLOBAL_TRUSTED_BASE
 from ..model import call_many
 from ..normtools import enc_def, enc_typ, state_of
 from ..pool import guarded, run_cases
 
-THEOREMS = ["C08_idempotent", "C08_rounds", "C08_nontrivial_round", "C08_rest_text_fixpoint", "C08_announced_line_fixpoint", "C08_unquote_quote", "C08_quote_refuted", "C08_class_text_fixpoint", "C08_column_round_idempotent", "C08_column_round_example"]
+THEOREMS = ["C08_idempotent", "C08_rounds", "C08_nontrivial_round", "C08_rest_text_fixpoint", "C08_announced_line_fixpoint", "C08_unquote_quote", "C08_quote_refuted", "C08_class_text_fixpoint", "C08_column_round_idempotent", "C08_column_round_example", "C08_google_text_fixpoint", "C08_numpy_text_fixpoint"]
 # (tag, format, cfg, IR domain)
 CONFIGS = [("docstring-rest", "docstring", {"docstring_format": "rest"}, "any"),
            ("docstring-rest-edd", "docstring", {"docstring_format": "rest", "parse_emit_default_doc": True}, "any"),
@@ -219,6 +219,11 @@ def run(ctx):
     n_cols, col_bad = sqltie.compare([sqltie.gen(ctx.rng) for _ in range(400 if ctx.quick else 12000)])
     corr += col_bad[:3]
     agg["columns"] = n_cols
+    # Model/GoogleEmit.v / Model/NumpyEmit.v (C08_google_text_fixpoint / C08_numpy_text_fixpoint) against the real emitters and parsers
+    n_ge, ge_bad = gtie.compare_emit([gtie.gen(ctx.rng) for _ in range(100 if ctx.quick else 3000)])
+    n_ne, ne_bad = gtie.compare_emit_numpy([gtie.gen(ctx.rng) for _ in range(100 if ctx.quick else 3000)])
+    corr += ge_bad[:3] + ne_bad[:3]
+    agg["style_texts"] = n_ge + n_ne
     if not ctx.violations:
         if corr:
             ctx.violation({"stage": "correspondence: Model/Norm.v rounds vs implementation rounds; Model/ExtractDefault.v vs extract_default; Model/SqlCol.v vs the column emitter / parser",
@@ -239,7 +244,7 @@ def run(ctx):
         "rule": "IRs incl. descriptions with type-hint trigger words, non-suffix defaults, List/Union/dotted types x 14 format "
                 "configurations x 2..4 rounds; non-trivial = the first round changed the parameters (so stability of round 2 is not vacuous)",
         "sequences": agg["n"], "sequences_stable_after_round_1": agg["stable"], "first_round_changed_something": agg["changed_in_round1"],
-        "extract_default_cases": agg["ed"], "columns_compared_with_model": agg["columns"], "corpus_sequences_run": len(agg.get("corpus_keys", [])),
+        "extract_default_cases": agg["ed"], "columns_compared_with_model": agg["columns"], "google_numpy_texts_compared_with_model": agg["style_texts"], "corpus_sequences_run": len(agg.get("corpus_keys", [])),
         "model_disagreements": len(corr), "traces_validated_against_impl": agg["n"] + agg["ed"],
         "samples": [T.jsonable(work[0][3]), work[0][0]],
         "build": {k: status[k] for k in ("build_s", "forbidden")},
